@@ -29,6 +29,9 @@ type Case struct {
 	X      *E                `json:"x,omitempty"`
 	Pos    string            `json:"pos,omitempty"`
 	Seed   int64             `json:"seed"`
+	// LetParens: 0 = let values get random redundant parentheses; n > 0 = every
+	// let value is written inside n-1 pairs of redundant parentheses.
+	LetParens int `json:"letparens,omitempty"`
 	// NoSubst: Query must compile to the same SQL with and without the binding Name.
 	NoSubst *NoSubst `json:"nosubst,omitempty"`
 }
@@ -163,6 +166,34 @@ func generate(w *mon.W) {
 		}
 		w.Do(key(c), func(r *mon.R) { Check(c, r) })
 	}
+	// every shape of let value (signed, sum, comparison, call, reference to an
+	// earlier signed let) in 0, 1 and 2 pairs of parentheses under every kind of
+	// use (bare, signed, indexed, operand on either side, argument)
+	{
+		n := func() *E { return Name("n") }
+		vals := []*E{Num("5"), Un("-", Num("1")), Un("+", Num("2")), Un("-", Un("-", Num("4"))), Bin("-", Num("1"), Num("5")), Bin("==", Num("1"), Num("1")),
+			Call("strcat", StrLit("a", false), StrLit("b", true)), Un("-", Name("n0")), Name("n0"), Idx(Call("fa", Num("1")), Num("0")), In(Num("1"), Num("1"), Num("2")), StrLit("q", false)}
+		uses := []*E{n(), Un("-", n()), Un("+", n()), Un("-", Un("-", n())), Idx(n(), Num("1")), Un("-", Idx(n(), Num("1"))), Bin("-", Num("1"), n()), Bin("-", Num("1"), Un("-", n())),
+			Bin("-", n(), n()), Bin("*", Un("-", n()), Un("-", n())), Bin("==", n(), Un("-", n())), Call("not", Bin(">", Un("-", n()), Num("0"))), Call("fi", Un("-", n())), In(Un("-", n()), n(), Num("1")),
+			Idx(Name("ma"), Un("-", n())), Call("iff", Bin("<", n(), Num("0")), Un("-", n()), n()), Bin("=~", n(), n()), Call("strcat", n(), n())}
+		for vi, v := range vals {
+			for ui, u := range uses {
+				for lp := 1; lp <= 3; lp++ {
+					for _, pos := range []string{"extend", "sort"} {
+						if pos == "sort" && (vi+ui)%3 != 0 {
+							continue
+						}
+						p := pos
+						if p == "sort" {
+							p = "top"
+						}
+						c := &Case{Params: map[string]string{}, Lets: []LetDef{{"n0", Un("-", Num("3"))}, {"n", v}}, X: u, Pos: p, Seed: int64(vi*100 + ui), LetParens: lp}
+						w.Do(fmt.Sprint("shape|", vi, "|", ui, "|", lp, "|", p), func(r *mon.R) { Check(c, r) })
+					}
+				}
+			}
+		}
+	}
 	// histories: the same let value text compiled with different earlier bindings, then with none
 	for ti, tmpl := range []func(a *E) *E{
 		func(a *E) *E { return Idx(StrLit("abc", false), a) },
@@ -240,7 +271,14 @@ func program(c *Case, lets []LetDef, x *E, after []LetDef) *Program {
 		// the value is written with the parentheses the grammar needs plus
 		// redundant ones chosen by the value itself (stable across calls)
 		prng := gen.RNG(c.Seed, "letparens|"+Canon(l.X))
-		out.Stmts = append(out.Stmts, &Stmt{LetName: &Ident{Name: n}, LetX: Parenthesize(l.X, func() bool { return prng.Intn(3) == 0 })})
+		lx := Parenthesize(l.X, func() bool { return prng.Intn(3) == 0 })
+		if c.LetParens > 0 {
+			lx = Parenthesize(l.X, nil)
+			for k := 1; k < c.LetParens; k++ {
+				lx = Paren(lx)
+			}
+		}
+		out.Stmts = append(out.Stmts, &Stmt{LetName: &Ident{Name: n}, LetX: lx})
 	}
 	out.Stmts = append(out.Stmts, q)
 	for _, l := range after {
